@@ -361,6 +361,11 @@ func (fv *FuncVC) callWithContractEnv(x *ssa.Call, cc *FuncContract, extra map[s
 		if en.Bounded != "" {
 			fv.assumptions[fmt.Sprintf("callee postcondition decided by bounded stand-in %s is assumed at call sites: %s", en.Bounded, cc.Key())] = true
 		}
+		if len(cc.Locals) > 0 && exprMentionsIdent(en.E, cc.Locals) {
+			// a postcondition about the callee's own locals (a stepping stone of its proof) is not part of what
+			// callers see
+			continue
+		}
 		fv.assume(envPost.trBool(en.E))
 	}
 	regionMod := false
